@@ -158,7 +158,7 @@ static void applyOutsideRule(Scene &s) {
 // generator classes
 static const char *CLASSES[] = {"scene-random", "scene-lattice", "scene-brick", "scene-walls", "scene-tiny"};
 
-static Scene genScene(vh::Rng &r, int cls, int maxRects) {
+static Scene genScene(vh::Rng &r, int cls, int maxRects, bool dirs) {
     Scene s;
     const double pens[3] = {10, 50, 200};
     s.pen = pens[r.range(0, 2)];
@@ -242,7 +242,8 @@ static Scene genScene(vh::Rng &r, int cls, int maxRects) {
     pickPt(s.sx, s.sy);
     do { pickPt(s.tx, s.ty); } while (s.tx == s.sx && s.ty == s.sy);
     if (r.coin(1, 5)) { if (r.coin()) s.tx = s.sx; else s.ty = s.sy; if (!freePoint(s, s.tx, s.ty, 1.0) || (s.tx == s.sx && s.ty == s.sy)) { s.tx = -6; s.ty = -7; } }
-    s.smask = pickMask(r); s.tmask = pickMask(r);
+    if (dirs) { do { s.smask = pickMask(r); s.tmask = pickMask(r); } while (s.smask == 15 && s.tmask == 15); }
+    else { s.smask = 15; s.tmask = 15; }
     applyOutsideRule(s);
     return s;
 }
@@ -385,15 +386,29 @@ int main(int argc, char **argv) {
     long nrk = thorough ? 8 : 2;
     for (long c = 0; c < nrk; ++c, ++k) if (a.want(k)) kernelRandom(k, vh::caseRng(a.seed, k), 500);
     for (long c = 0; c < nrk; ++c, ++k) if (a.want(k)) kernelEstimate(k, vh::caseRng(a.seed, k), 300);
-    long nscenes = (thorough ? 1500 : 250) * a.scale;
+    // Scenes.  Default: both endpoints visible in all four directions (the configuration for which
+    // "optimal among all orthogonal obstacle-avoiding paths" is well defined and libavoid's cost model
+    // is exactly length + penalty*bends).  `--mode dirs` additionally emits direction-restricted
+    // endpoints under the single tag scene-dirs (see check/props/C05.py for why this is separate).
+    long nscenes = (thorough ? 10000 : 1500) * a.scale;
     if (a.n >= 0) nscenes = a.n;
     int maxRects = thorough ? 30 : 10;
     for (long c = 0; c < nscenes; ++c, ++k) {
         if (!a.want(k)) continue;
         vh::Rng r = vh::caseRng(a.seed, k);
         int cls = (int) r.range(0, 4);
-        Scene s = genScene(r, cls, maxRects);
+        Scene s = genScene(r, cls, maxRects, false);
         runScene(k, CLASSES[cls], s);
+    }
+    if (a.mode == "dirs") {
+        long nd = (thorough ? 3000 : 500) * a.scale;
+        for (long c = 0; c < nd; ++c, ++k) {
+            if (!a.want(k)) continue;
+            vh::Rng r = vh::caseRng(a.seed, k);
+            int cls = (int) r.range(0, 4);
+            Scene s = genScene(r, cls, maxRects, true);
+            runScene(k, "scene-dirs", s);
+        }
     }
     return 0;
 }
